@@ -1405,11 +1405,18 @@ func exchangeServiceInfoRound(ctx context.Context, transport Transport, mtu uint
 			break
 		}
 		if errors.Is(err, serviceinfo.ErrSizeTooSmall) {
-			msg.IsMoreServiceInfo = true
-			if maxRead == mtu {
-				msg.IsMoreServiceInfo = false // likely due to a yield... but also could be a malicious large key?
+			if maxRead < mtu {
+				msg.IsMoreServiceInfo = true
+				break
 			}
-			break
+			// Nothing has been added to this message yet. A forced message
+			// break (yield) is reported as a wrapped ErrSizeTooSmall and has
+			// nothing to break here, so keep reading rather than sending an
+			// empty message and abandoning the rest of the service info.
+			if err != serviceinfo.ErrSizeTooSmall { //nolint:errorlint // identity is intended
+				continue
+			}
+			return 0, false, fmt.Errorf("service info key does not fit in an empty message at MTU=%d", mtu)
 		}
 		if err != nil {
 			return 0, false, fmt.Errorf("error reading KV to send to owner: %w", err)
